@@ -115,3 +115,9 @@ _t("C06",
    "independent coin ledger's eligible set, for reuse, and signed results are verified with the real script engine using ledger data, not the wallet's.",
    "Trusted: harness coin ledger computed from emitted events; btcd script engine; internal/simchain.",
    "property-based testing: generated wallet histories and requests vs ledger eligibility + script-engine validity oracle", "DESIGN.md §3 C06")
+
+_t("C20",
+   "Generated broadcast attempts with every backend answer class, including a failing address subscription, against a funded wallet; a before/after snapshot decides 'no trace', the "
+   "harness ledger decides 'counted once', and the model backend's call log decides 're-offered after every resynchronisation, parents first', including refusal on re-broadcast.",
+   "Trusted: internal/simchain programmable answers and call log; harness coin ledger.",
+   "property-based testing: generated histories with fault-injected backend answers, snapshot/ledger/call-log oracles", "DESIGN.md §3 C20")
